@@ -93,7 +93,8 @@ theorem againSection_N (ho : RunOpts o name pname) (hN : o.ignoreReversed = true
     C06_N_full (splitLines bytes) h1 rest { patch0 with hunks := h1 :: rest } (applyOptsOf o)
       (Option.map (fun l => List.map (fun a => !List.isEmpty a && List.head? a != some 110) l) s0.tty)
       hvalid (noReversedD2_of_valid hvalid hd.change) rfl hamb hN hf ho.plain.noReverse ho.plain.fuzz hru'
-  refine ⟨patch0, info, par1, par2, r, ?_, hrfail, hrskip, ?_, hrmsgs ho.plain.quiet, by rw [render, hrout, hnew], heof⟩
+  refine ⟨patch0, info, par1, par2, r, ?_, hrfail, hrskip, ?_, hrmsgs ho.plain.quiet,
+    Render.render_of_map_line _ (hrout.trans hnew.symm) (Render.linesTerminated_splitLines newbytes), heof⟩
   · exact {
       operand := ho.plain.operand, noOut := ho.plain.noOut, pathNe := hname, cwd := hs0.cwd, hdr := hhdr,
       fmt := Or.inl hfm, op := hop, pre := hpre, body := hbody, file := htarget,
@@ -171,7 +172,7 @@ theorem againSection_t (ho : RunOpts o name pname) (hN : o.ignoreReversed = fals
       (Option.map (fun l => List.map (fun a => !List.isEmpty a && List.head? a != some 110) l) s0.tty)
       hvalid (noReversedD2_of_valid hvalid hd.change) rfl hamb hN ht hf ho.plain.noReverse ho.plain.noDefine ho.plain.fuzz
   refine ⟨patch0, reversePatch { patch0 with hunks := h1 :: rest }, info, par1, par2, r, ?_, hrfail, hrperf,
-    hrmsgs ho.plain.quiet, by rw [render, hrout], heof⟩
+    hrmsgs ho.plain.quiet, Render.render_of_map_line _ hrout (Render.linesTerminated_splitLines bytes), heof⟩
   exact {
     operand := ho.plain.operand, noOut := ho.plain.noOut, pathNe := hname, cwd := hs0.cwd, hdr := hhdr,
     fmt := Or.inl hfm, op := hop, pre := hpre, body := hbody, file := htarget,
